@@ -212,13 +212,14 @@ func main() {
 			scs = append(scs, scenario(cfg{Items: []int{i, j}, Peers: 2, Reqs: ev.Pick(r, 1, 2), Bursts: 1}))
 		}
 	}
-	scs = append(scs, scenario(cfg{Items: []int{0, 4, 8}, Peers: 3, Reqs: ev.Pick(r, 1, 2), Bursts: 1}))
-	scs = append(scs, scenario(cfg{Items: []int{3, 5, 7}, Peers: 3, Reqs: ev.Pick(r, 1, 2), Bursts: 1}))
+	// (3 peers x 2 requests x 3 items exceeds 15 M executions per scenario: the thorough tier widens the burst budget instead)
+	scs = append(scs, scenario(cfg{Items: []int{0, 4, 8}, Peers: 3, Reqs: 1, Bursts: ev.Pick(r, 1, 2)}))
+	scs = append(scs, scenario(cfg{Items: []int{3, 5, 7}, Peers: 3, Reqs: 1, Bursts: ev.Pick(r, 1, 2)}))
 	scs = append(scs, scenario(cfg{Items: []int{8}, Peers: 2, Reqs: 1, Bursts: 1, Preempt: ev.Pick(r, 1, 2)}))
 	scs = append(scs, scenario(cfg{Items: []int{1}, Peers: 2, Reqs: 1, Bursts: 1, Preempt: ev.Pick(r, 1, 2)}))
 	// a peer that sends faster than its handler runs: the per-connection queue (size 1) is full while more datagrams arrive
 	scs = append(scs, scenario(cfg{Items: []int{8}, Peers: 1, Reqs: 4, Bursts: 4, Queue: 1}))
-	scs = append(scs, scenario(cfg{Items: []int{8}, Peers: 2, Reqs: ev.Pick(r, 2, 3), Bursts: ev.Pick(r, 3, 6), Queue: 1}))
+	scs = append(scs, scenario(cfg{Items: []int{8}, Peers: 2, Reqs: ev.Pick(r, 2, 3), Bursts: ev.Pick(r, 3, 4), Queue: 1}))
 	addPairs(r, &scs)
 	addDiscovery(r, &scs)
 	addStreamServers(r, &scs)
